@@ -75,7 +75,9 @@ func NewMultilineReverseSuffixSearcher(
 	suffixLen := len(suffixBytes)
 
 	// Build prefilter from suffix literals
-	builder := prefilter.NewBuilder(nil, suffixLiterals)
+	// Candidates are occurrences of the common suffix (suffixLen is its length),
+	// so the prefilter must search for exactly that literal, not for the whole set.
+	builder := prefilter.NewBuilder(nil, literal.NewSeq(literal.NewLiteral(suffixBytes, false)))
 	pre := builder.Build()
 	if pre == nil {
 		return nil, ErrNoMultilinePrefilter
